@@ -1,5 +1,6 @@
 """C08 - actions: side effects once, in order, then RETURN/THROW once; the handler's only."""
 import os
+import re
 
 from engine import facts, cc, cfg, lib
 from engine.auto import Explorer, fmt_trace, cond_shape
@@ -82,24 +83,58 @@ def c08a(ctx, tu):
         ctx.ob("C08.h", A["dispatch"], ok, pattern=fn.pat, unit=tu.name, inst=fn.q, detail=why)
 
 
+def roles08(tu):
+    """Names by role, so that a renamed member keeps its rule: the expectation's list of side effects / of conditions
+    (the members whose type is a list of side_effect_base / condition_base), the virtual that runs one side effect
+    (the only virtual method of side_effect_base besides the destructor), the THROW handler's functor (its only
+    field).  Falls back to the reference names."""
+    r = getattr(tu, "_roles08", None)
+    if r is not None:
+        return r
+    r = {"actions": "trompeloeil::call_matcher::actions", "conditions": "trompeloeil::call_matcher::conditions",
+         "action": A["side_effect_action"], "throw_fn": "trompeloeil::throw_handler_t::h"}
+    for c in tu.cls_by_qe.get("trompeloeil::call_matcher", [])[:1]:
+        for f in c.get("fields", ()):
+            t = f.get("t", "")
+            if re.match(r"trompeloeil::list<trompeloeil::side_effect_base<", t):
+                r["actions"] = erase(f["q"])
+            if re.match(r"trompeloeil::list<trompeloeil::condition_base<", t):
+                r["conditions"] = erase(f["q"])
+    vm = set(f.qe for f in tu.fns.values() if erase(f.rec.get("clsq", "")) == "trompeloeil::side_effect_base"
+             and f.kind == "method" and f.rec.get("virtual"))
+    if len(vm) == 1:
+        r["action"] = vm.pop()
+    for c in tu.cls_by_qe.get("trompeloeil::throw_handler_t", [])[:1]:
+        fl = c.get("fields", ())
+        if len(fl) == 1:
+            r["throw_fn"] = erase(fl[0]["q"])
+    tu._roles08 = r
+    return r
+
+
 # ------------------------------------------------------------------------------- C08.b
 def c08b(ctx, tu):
     protocol.report(ctx, tu, lambda r: True)   # the whole step protocol is a premise of this property
+    R = roles08(tu)
+    ACT, ACTIONS = R["action"], R["actions"]
     for fn in tu.need(A["run_actions"], 5):
         l = None
         for lp in cfg.loops(fn):
-            if cfg.events_in_blocks(fn, lp["body"], lambda e: e["e"] == "call" and qe(e) == A["side_effect_action"]):
+            if cfg.events_in_blocks(fn, lp["body"], lambda e: e["e"] == "call" and qe(e) == ACT):
                 l = lp
         if l is None:
-            ctx.ob("C08.b.loop", A["run_actions"], False, pattern=fn.pat, unit=tu.name, inst=fn.q,
-                   detail="no loop running the side effects found")
+            # no call of the side-effect virtual anywhere in the unit: the anchor is gone (analysis broken), else a verdict
+            known = any(f.qe == ACT for f in tu.fns.values())
+            ctx.ob("C08.b.loop", A["run_actions"], False if known else None, pattern=fn.pat, unit=tu.name, inst=fn.q,
+                   detail="no loop running the side effects found" if known else
+                   "the function that runs one side effect (%s) was not found" % ACT)
             continue
         # whole list, in list order, no early exit
         rng = None
         for b, e in fn.events():
             if e["e"] == "decl" and e.get("name", "").startswith("__range"):
                 init = e.get("init")
-                if isinstance(init, list) and init[:1] == ["member"] and erase(init[1]) == "trompeloeil::call_matcher::actions":
+                if isinstance(init, list) and init[:1] == ["member"] and erase(init[1]) == ACTIONS:
                     rng = e
         ok = rng is not None and l["kind"] == "rangefor" and not l["exit_edges"]
         if not ok and not l["exit_edges"]:
@@ -115,10 +150,10 @@ def c08b(ctx, tu):
                     r = t[3] if t[0] == "mcall" else None
                     seen.append(it.ev(r) if r is not None else None)
                     return None
-                o = Oracle(calls=iter_calls("elem", {A["side_effect_action"]: act}), any_member=True, any_call=True, any_param=True)
+                o = Oracle(calls=iter_calls("elem", {ACT: act}), any_member=True, any_call=True, any_param=True)
                 res, it = lm.step(o, at="elem")
                 begins = [e for b, e in fn.events() if e["e"] == "call" and qe(e) == "trompeloeil::list::begin" and
-                          erase(str(lib.resolve(fn, e.get("recv")))).find("trompeloeil::call_matcher::actions") >= 0]
+                          erase(str(lib.resolve(fn, e.get("recv")))).find(ACTIONS) >= 0]
                 ok = res == ("stop", lm.entry) and len(seen) == 1 and "cur" in str(seen[0]) and bool(begins)
             except Unknown:
                 ok = None
@@ -139,8 +174,9 @@ def c08b(ctx, tu):
 
 # ------------------------------------------------------------------------------- C08.c
 def c08c(ctx, tu):
-    spec = {"trompeloeil::call_matcher::add_condition": "trompeloeil::call_matcher::conditions",
-            "trompeloeil::call_matcher::add_side_effect": "trompeloeil::call_matcher::actions"}
+    R = roles08(tu)
+    spec = {"trompeloeil::call_matcher::add_condition": R["conditions"],
+            "trompeloeil::call_matcher::add_side_effect": R["actions"]}
     for name, field in spec.items():
         for fn in tu.need(name, 1):
             pushes = [e for b, e in fn.events() if e["e"] == "call" and qe(e) in (A["push_back"], A["push_front"])]
@@ -315,7 +351,7 @@ def c08ef(ctx, tu):
         # user expression evaluated once, then abort: no normal return of a value is reachable
         calls = [(b["id"], e) for b, e in fn.events() if e["e"] == "call"]
         user = [(bid, e) for bid, e in calls if e.get("recv") is not None and
-                erase(str(e["recv"][1] if e["recv"][:1] == ["member"] else "")) == "trompeloeil::throw_handler_t::h"]
+                erase(str(e["recv"][1] if e["recv"][:1] == ["member"] else "")) == roles08(tu)["throw_fn"]]
         aborts = [(bid, e) for bid, e in calls if qe(e) in ("abort", "std::abort")]
         ok = len(user) == 1 and len(aborts) >= 1
         if ok:
